@@ -600,6 +600,10 @@ caf_write_header (SF_PRIVATE *psf, int calc_length)
 
 		if (psf->dataend)
 			psf->datalength -= psf->filelength - psf->dataend ;
+		else if (psf->file.mode == SFM_RDWR && psf->bytewidth > 0)
+		{	/* Audio appended to an existing file may have grown over part of a chunk that followed it : go by the frame count. */
+			psf->datalength = psf->sf.frames * psf->bytewidth * psf->sf.channels ;
+			} ;
 
 		if (psf->bytewidth > 0)
 			psf->sf.frames = psf->datalength / (psf->bytewidth * psf->sf.channels) ;
